@@ -1872,6 +1872,12 @@ DLLEXPORT int tj3DecompressHeader(tjhandle handle,
 
   jpeg_mem_src_tj(dinfo, jpegBuf, jpegSize);
 
+  /* An ICC profile extracted from a previous JPEG image does not belong to
+     this one. */
+  free(this->tempICCBuf);
+  this->tempICCBuf = NULL;
+  this->tempICCSize = 0;
+
   /* Extract ICC profile if TJPARAM_SAVEMARKERS is 2 or 4.  (We could
      eventually reuse this mechanism to save other markers, if needed.)
      Because ICC profiles can be large, we extract them by default but allow
